@@ -157,7 +157,7 @@ struct Node
     // The variadic constructor observes that call (a unit rule over a nonterminal is a plain move and has no event);
     // the initializer_list constructor exists only to be observed if it is ever chosen instead.
     template<typename T> struct is_val : std::bool_constant<std::is_same_v<std::decay_t<T>, Node> || std::is_same_v<std::decay_t<T>, ctpg::no_type>
-                                                         || std::is_same_v<std::decay_t<T>, ctpg::term_value<Node>>> {};
+                                                         || std::is_same_v<std::decay_t<T>, ctpg::term_value<Node>> || std::is_same_v<std::decay_t<T>, ctpg::term_value<ctpg::no_type>>> {};
     template<typename A0, typename... A,
              typename = std::enable_if_t<(is_val<A0>::value && ... && is_val<A>::value)
                                          && !(sizeof...(A) == 0 && !std::is_same_v<std::decay_t<A0>, ctpg::term_value<Node>>)>>
@@ -196,6 +196,14 @@ struct TermF
     }
 };
 
+// the same for a term whose VALUE TYPE is no_type (typed_term(char_term('+'), create<no_type>{}) in the readme's idiom):
+// the call is observed, the value carries nothing
+struct TermFN
+{
+    int t;
+    ctpg::no_type operator()(std::string_view sv) const { TermF{t}(sv); return {}; }
+};
+
 // argument adaptors: what a rule functor may receive
 inline void take_arg(Tree& parent, std::vector<long>& ids, std::vector<long>& lines, std::vector<long>& cols, Node&& n)
 {
@@ -215,6 +223,11 @@ inline void take_arg(Tree& parent, std::vector<long>& ids, std::vector<long>& li
 inline void take_arg(Tree& parent, std::vector<long>& ids, std::vector<long>& lines, std::vector<long>& cols, ctpg::no_type&&)
 {
     ids.push_back(-2); lines.push_back(-1); cols.push_back(-1);
+    parent.ch.push_back(nullptr);
+}
+inline void take_arg(Tree& parent, std::vector<long>& ids, std::vector<long>& lines, std::vector<long>& cols, ctpg::term_value<ctpg::no_type>&& tv)
+{
+    ids.push_back(-2); lines.push_back(tv.get_line()); cols.push_back(tv.get_column());      // a value-less term: no tree, but a source point
     parent.ch.push_back(nullptr);
 }
 inline void take_arg(Tree& parent, std::vector<long>& ids, std::vector<long>& lines, std::vector<long>& cols, ctpg::term_value<char>&& tv)
@@ -349,6 +362,12 @@ struct byte_lexer
             bool done = false;
             for (long z : L.zdone) if (z == off) done = true;
             return ctpg::recognized_term(ctpg::size16_t(b - 0x80), size_t(done ? 1 : 0));
+        }
+        if (b >= 0x90 && b < 0xa0)
+        {
+            // a blob: the term extends to the end of the input (one lexeme of any length)
+            if (int(b - 0x90) >= NTerms) return ctpg::recognized_term{};
+            return ctpg::recognized_term(ctpg::size16_t(b - 0x90), size_t(avail));
         }
         if (b < 0x40 || b > 0x7f) return ctpg::recognized_term{};
         int idx = (b - 0x40) / 4, len = (b - 0x40) % 4 + 1;
